@@ -122,6 +122,9 @@ class CWMH(ProposalBasedSampler):
     
     @proposal.setter
     def proposal(self, value):
+        # The acceptance ratio omits the proposal densities, which is only valid for symmetric proposals
+        if isinstance(value, cuqi.distribution.Distribution) and not value.is_symmetric:
+            raise ValueError("Proposal must be symmetric")
         self._proposal = value
 
     def step(self):
